@@ -206,9 +206,11 @@ def check_colourful(case):
             bad.append((r, c, nm, got, e))
 
     def same(got, e):
-        if e is None:
-            return got is None or got[3] == 0
+        if e is None or (kind == 'svg' and e[3] == 0):
+            # nothing visible is painted: transparent, or (SVG) whatever lies beneath
+            return got is None or got[3] == 0 or (kind == 'svg' and got == beneath)
         return got is not None and tuple(got) == tuple(e)
+    beneath = None
     try:
         if kind in ('png', 'ppm'):
             if kind == 'png':
@@ -239,6 +241,7 @@ def check_colourful(case):
                 if tuple(rect) != (0, 0, t, t):
                     devs.append(Dev('C11/svg-background', 'rectangle %s' % ([float(x) for x in rect],)))
                 col = svg_color_rgba(fill, False)
+                beneath = tuple(col[:3]) + (int(round(float(col[3]) * 255)),)
                 for r in range(t):
                     for c in range(t):
                         painted[r][c] = col
@@ -247,6 +250,8 @@ def check_colourful(case):
                     continue
                 g = vector.grid_from_segments([(x1, y, x2, lw)], t)
                 rgba = svg_color_rgba(col, False)
+                if rgba[3] == 0:
+                    continue  # an invisible stroke leaves what is beneath
                 r = int(vector.snap(y) - vector.F(1, 2))
                 for c in range(t):
                     if g[r][c]:
@@ -368,7 +373,9 @@ def colourful_cases(draw):
     if kind == 'png':
         colour = colors.with_alpha(none_ok=True)
     elif kind == 'svg':
-        colour = colors.opaque(none_ok=True)
+        # opaque or invisible (alpha exactly 0 in every notation); no blending model for other alphas
+        colour = st.one_of(colors.opaque(none_ok=True), colors.opaque(none_ok=True), colors.opaque(none_ok=True),
+                           st.sampled_from(['#ff000000', '#f000', [255, 0, 0, 0], [0, 0, 255, 0.0], '#00000000', [255, 255, 255, 0]]))
     else:
         colour = colors.opaque()
     # a small pool makes equal colours (and thereby 2 / 3 / 4 distinct colours) likely
